@@ -17,6 +17,7 @@ import (
 	"strings"
 	"sync"
 	"sync/atomic"
+	"syscall"
 	"time"
 )
 
@@ -175,9 +176,18 @@ func (w *Worker) heartbeat() {
 			return
 		case <-t.C:
 			tick++
-			w.progress(fmt.Sprintf("H %d %d %d %d", tick, w.cases.Load(), w.steps.Load(), w.oracle.Load()))
+			w.progress(fmt.Sprintf("H %d %d %d %d %d", tick, w.cases.Load(), w.steps.Load(), w.oracle.Load(), cpuMillis()))
 		}
 	}
+}
+
+// cpuMillis returns the CPU time (user+system) this process has consumed.
+func cpuMillis() int64 {
+	var ru syscall.Rusage
+	if err := syscall.Getrusage(syscall.RUSAGE_SELF, &ru); err != nil {
+		return 0
+	}
+	return (ru.Utime.Sec+ru.Stime.Sec)*1000 + int64(ru.Utime.Usec+ru.Stime.Usec)/1000
 }
 
 // RunBlock runs one block of p.
